@@ -115,8 +115,10 @@ Proof.
   - cbn [item_ok seg_ok]. repeat split; auto. subst name. apply no_td_word_upper.
   - cbn [item_text]. unfold td_text. rewrite !forallb_app. rewrite Bt, Nt. reflexivity.
   - cbn [item_text]. apply cont_okb_nobsl. unfold td_text. rewrite !mem_app. rewrite Bb, Nb. reflexivity.
-  - unfold enum_entry.
+  - unfold enum_entry, enum_entry_g.
     pose proof (match_typedef_text KW_ENUM body name [] (or_intror eq_refl) Bne Br Nne Nw) as M. rewrite app_nil_r in M. rewrite M.
+    rewrite enum_body_of_id.
+    2:{ apply mem_false_forallb. eapply forallb_impl; [|exact B]. intros x Hx. apply negb_true_iff, N.eqb_neq. intros ->. discriminate. }
     f_equal. f_equal. subst body. unfold ebody, strip.
     replace (lead ++ gtext (e_labels e) gaps ++ trail) with ((lead ++ gtext (e_labels e) gaps) ++ trail) by (now rewrite <- app_assoc).
     rewrite rstrip_app_ws by (now apply wsch_all_ws). rewrite rstrip_id.
